@@ -31,6 +31,7 @@ class G:
     CUR = None         # (engine, path condition) of the operation being evaluated
     MUL_PRECISE_BITS = 24
     stats = {}
+    ABSTRACT = False   # abstract mode: unmergeable values join to Unknown
 
 
 def reset(W, mul_precise_bits=24):
@@ -41,6 +42,7 @@ def reset(W, mul_precise_bits=24):
     G.CUR = None
     G.MUL_PRECISE_BITS = mul_precise_bits
     G.stats = {}
+    G.ABSTRACT = False
 
 
 def fresh_name(prefix):
@@ -78,12 +80,20 @@ class SBool:
 
 
 class Unknown:
-    """Abstract-mode value: any Python object.  tag: optional SInt/int ghost (C33)."""
-    __slots__ = ('why', 'tag')
+    """Abstract-mode value: any Python object.  tag: optional SInt/int ghost (C33).
+    When an Unknown is used in integer arithmetic/comparison it is consistently viewed as one fresh symbolic integer."""
+    __slots__ = ('why', 'tag', '_int')
 
     def __init__(self, why='?', tag=None):
         self.why = why
         self.tag = tag
+        self._int = None
+
+    def as_int(self):
+        if self._int is None:
+            lim = 1 << min(44, G.W - 6)
+            self._int = fresh_int('unk', -lim, lim)
+        return self._int
 
     def __repr__(self):
         return 'Unknown(%s)' % self.why
@@ -548,4 +558,9 @@ def merge(c, a, b):
                 return a
         except Exception:
             pass
+    if G.ABSTRACT:
+        keep = G.stats.get('_keep_separate')
+        if keep is not None and (keep(a) or keep(b)):
+            raise Unmergeable()      # objects whose methods matter for the property are never blurred into Unknown
+        return Unknown('join')
     raise Unmergeable()
